@@ -392,15 +392,21 @@ Definition w_Ultrasonic := [85;108;116;114;97;115;111;110;105;99].
 Definition w_Button := [66;117;116;116;111;110].
 Definition w_Potentiometer := [80;111;116;101;110;116;105;111;109;101;116;101;114].
 
-(* RE_IMPORT_ANY = ^\s*(?:import|from\s+\S+\s+import)\s+\S.*$ on stripped text: what _import_end asks, hence what
-   parse() skips at top level since "fix: reject statements the transpiler cannot translate instead of dropping
-   them" (before: eight patterns for particular Reduino imports).  An import whose parenthesised list of names
-   continues on the following lines is outside the layouts of the theorems (one physical line per statement). *)
+(* RE_IMPORT_ANY = ^\s*(?:import|from\s+\S+\s+import)\s+[^\s;][^;]*$ on stripped text: what _import_end asks, hence
+   what parse() skips at top level since "fix: reject statements the transpiler cannot translate instead of dropping
+   them" (before: eight patterns for particular Reduino imports).  No `;` after the keyword(s): a second statement
+   cannot hide behind an import.  An import whose parenthesised list of names continues on the following lines is
+   outside the layouts of the theorems (one physical line per statement). *)
+Definition has_semi (t : text) : bool := existsb (fun c => c =? 59) t.
 Definition top_import (t : text) : bool :=
   match split_ws t with
-  | a :: _ :: rest =>
-      text_eqb a w_import
-      || (text_eqb a w_from && match rest with b :: _ :: _ => text_eqb b w_import | _ => false end)
+  | a :: rest =>
+      (text_eqb a w_import && match rest with [] => false | _ => negb (existsb has_semi rest) end)
+      || (text_eqb a w_from &&
+          match rest with
+          | _ :: b :: n :: names => text_eqb b w_import && negb (existsb has_semi (n :: names))
+          | _ => false
+          end)
   | _ => false
   end.
 
